@@ -51,7 +51,7 @@ pub fn init_map(interp: &mut Interpreter) {
     interp
         .map_prototype
         .borrow_mut()
-        .set_property(constructor_key, JsValue::Object(constructor.clone()));
+        .define_builtin_property(constructor_key, JsValue::Object(constructor.clone()));
 
     // Add Symbol.species getter
     interp.register_species_getter(&constructor);
@@ -79,7 +79,7 @@ pub fn map_constructor(
             entries: index_map_new(),
         };
         obj.prototype = Some(interp.map_prototype.clone());
-        obj.set_property(size_key, JsValue::Number(0.0));
+        obj.define_builtin_property(size_key, JsValue::Number(0.0));
     }
 
     // If an iterable is passed (an array, a Map, a generator, ...), add its entries: each
@@ -528,7 +528,7 @@ pub fn map_group_by(
             entries: index_map_new(),
         };
         obj.prototype = Some(interp.map_prototype.clone());
-        obj.set_property(size_key.clone(), JsValue::Number(0.0));
+        obj.define_builtin_property(size_key.clone(), JsValue::Number(0.0));
     }
 
     // Track groups using IndexMap for O(1) lookup with SameValueZero semantics
